@@ -134,10 +134,19 @@ func sampleTyped(rng *rand.Rand, pkg CorpusPkg, mode Mode, i int) CScenario {
 		nTasks, nOps = 2+rng.Intn(6), 2+rng.Intn(4)
 	}
 	frac := func() int { return 1 + rng.Intn(999) }
+	// C19: half of the scenarios are "hot": every task calls the same one or two operations, so that whatever state
+	// an operation's code path shares between requests is entered by several requests at once
+	opPool := pkg.Ops
+	if mode == ModeC19 && rng.Intn(2) == 0 {
+		opPool = []string{pkg.Ops[rng.Intn(len(pkg.Ops))]}
+		if rng.Intn(2) == 0 {
+			opPool = append(opPool, pkg.Ops[rng.Intn(len(pkg.Ops))])
+		}
+	}
 	for t := 0; t < nTasks; t++ {
 		var calls []RawCall
 		for o := 0; o < nOps; o++ {
-			c := RawCall{TOp: pkg.Ops[rng.Intn(len(pkg.Ops))], V: rng.Uint64() >> 1, Edge: rng.Intn(4) == 0}
+			c := RawCall{TOp: opPool[rng.Intn(len(opPool))], V: rng.Uint64() >> 1, Edge: rng.Intn(4) == 0}
 			switch mode {
 			case ModeC01Clean:
 				if rng.Intn(6) == 0 {
